@@ -530,7 +530,17 @@ func (e *Exec) stepSlice(fr *frame, st *State, in *ssa.Slice) {
 		hi := opt(in.High, slLen(x.T))
 		mx := opt(in.Max, slCap(x.T))
 		e.oblige(fr, st, "slice", "slice bounds in range", pos, and(le("0", lo), le(lo, hi), le(hi, mx), le(mx, slCap(x.T))))
-		e.set(fr, in, Val{T: mkSlice(slRef(x.T), add(slOff(x.T), lo), sub(hi, lo), sub(mx, lo)), S: sSlice})
+		res := mkSlice(slRef(x.T), add(slOff(x.T), lo), sub(hi, lo), sub(mx, lo))
+		if lo != "0" {
+			// element j of s[lo:hi] is element lo+j of s, in every heap
+			rc := e.ctx.fresh("subslice", sSlice)
+			e.ctx.assume(eq(rc, res))
+			res = rc
+			hs := arraySort(sInt, arraySort(sInt, e.ctx.sortOf(u.Elem())))
+			e.ctx.assume(fmt.Sprintf("(forall ((H %s) (j Int)) (! (= %s %s) :pattern (%s)))", hs,
+				e.elemAt("H", u.Elem(), rc, "j"), e.elemAt("H", u.Elem(), x.T, "(+ "+lo+" j)"), e.elemAt("H", u.Elem(), rc, "j")))
+		}
+		e.set(fr, in, Val{T: res, S: sSlice})
 	case *types.Basic: // string
 		xs := e.tval(fr, st, in.X)
 		lo := opt(in.Low, "0")
